@@ -798,9 +798,10 @@ class Context(MetadataContextMixin, object):
             state.status = Status.ERROR.value
             state.is_error = True
         else:
+            # log first: the progress metadata written by the log must not yet claim the status 'ready'
+            self.info(f"Action {action.encode()} at {action.position} completed")
             self.status = Status.READY
             metadata["status"] = self.status.value
-            self.info(f"Action {action.encode()} at {action.position} completed")
             state_vars = dict(self.vars)
             state_vars.update(state.vars)
             state_vars.update(self.vars.get_modified())
